@@ -1,8 +1,9 @@
-CONSTANTS MaxOps = 4
+CONSTANTS MaxOps = 3
           ResyncOnChange = TRUE
-          DocCacheByText = FALSE
+          DocCacheByText = TRUE
           LintMemo = FALSE
 INIT JInit
 NEXT JNextIgnoreList
-INVARIANTS EmitCase
+VIEW NoHist
+INVARIANTS PromisedHidden
 CHECK_DEADLOCK FALSE
